@@ -220,6 +220,9 @@ def run(ctx):
     # permitted-alphabet constraints FROM (...) against an independent reading of the permitted set
     from .. import fromfam as _fromfam
     _fromfam.run(ctx, 'C12', ctx.rng, ctx.n(30, 400))
+    # named numbers as constraint bounds (the same identifiers name other numbers in another type): class and path as with literal bounds
+    from .. import samename as _samename
+    _samename.run_named(ctx, 'C12', ctx.rng, ctx.n(6, 60))
 
 
 def in_addition(t, v):
